@@ -229,7 +229,10 @@ def _run(spec, tape, root, event_timeout):
 
     # fault plan (generation mode only; replay reads the tape)
     plan: dict[int, dict[int, str | None]] = {i: {} for i in range(n)}
-    if tape.generating and kinds:
+    pin = spec.get("pin")  # systematic sweep: the ord-th applicable fault at event ev of process proc, nothing else
+    if tape.generating and pin:
+        plan[pin["proc"]][pin["ev"]] = pin["ord"]
+    elif tape.generating and kinds:
         rng = tape.rng
         for i in range(n):
             if rng.random() < fcfg.get("p_proc", 0.7):
@@ -352,6 +355,10 @@ def _run(spec, tape, root, event_timeout):
                 want = p.nev in plan[p.i] or plan[p.i].get(-1)
 
                 def fgen(rng, want=want, applicable=applicable, p=p):
+                    if pin:
+                        if p.i == pin["proc"] and p.nev == pin["ev"] and applicable:
+                            return 1 + pin["ord"] % len(applicable)
+                        return 0
                     if not want or not applicable:
                         if want:
                             plan[p.i][-1] = True  # slide to the next applicable event
